@@ -9,7 +9,7 @@ OPN = {0: "clock", 1: "deposit", 2: "withdraw", 3: "borrow", 4: "repay", 7: "clo
        16: "collect_fees", 17: "liquidate", 18: "bankruptcy", 19: "set_price",
        30: "fixture_risk_admin", 31: "fixture_bank_flags",
        32: "collect_fees_foreign_ata", 33: "fixture_account_flags", 34: "borrow_without_risk_accounts", 35: "withdraw_without_risk_accounts",
-       36: "close_bank_probe", 37: "liquidate_without_risk_accounts"}
+       36: "close_bank_probe", 37: "liquidate_without_risk_accounts", 38: "fixture_pending_fee_change"}
 HB_EXTRA = 13  # tokens after the 38 bankops tokens, before e-mode entries
 
 
@@ -180,12 +180,42 @@ def gen_case_random(rng, max_ops=26, kind="mixed"):
 def gen_case(rng, max_ops=26, kind="mixed"):
     r = rng.random()
     if r < 0.3:
-        return gen_case_random(rng, max_ops, kind)
-    if r < 0.34:
-        return gen_close_case(rng)
-    if r < 0.37:
-        return gen_close_balance_case(rng)
-    return gen_case_scenario(rng, max_ops)
+        line = gen_case_random(rng, max_ops, kind)
+    elif r < 0.34:
+        line = gen_close_case(rng)
+    elif r < 0.37:
+        line = gen_close_balance_case(rng)
+    else:
+        line = gen_case_scenario(rng, max_ops)
+    return with_pending_fee_change(rng, line)
+
+
+def with_pending_fee_change(rng, line, p=0.6):
+    """Token-2022 mints with a transfer fee may carry a PENDING fee change (two schedules) while the clock epoch sits just
+    before, at, or after the epoch in which the newer schedule starts.  Fixture op 38 (one per fee bank, all with the same
+    newer-epoch and clock epoch) is inserted at the start of the history or at a random later position; the bank's
+    configured (bps, max) is the NEWER schedule, the older one is drawn here."""
+    c = parse_case(line)
+    fee_banks = [k for k, b in enumerate(c["banks"]) if b["tokprog"] == 2]
+    if not fee_banks or rng.random() >= p:
+        return line
+    e_new = rng.choice([1, 2, 7, 600])
+    cur = rng.choice([e_new - 1, e_new, e_new, e_new, e_new + 1, e_new + 50])
+    ops = [list(o) for o in c["ops"]]
+    pos = 0 if rng.random() < 0.7 else rng.randrange(0, len(ops) + 1)
+    fix = []
+    for k in fee_banks:
+        b = c["banks"][k]
+        old_bps = rng.choice([0, 0, 1, 10, 100, 500, 1000])
+        old_max = rng.choice([0, 5, 10 ** 4, 10 ** 9, U64_MAX])
+        fix.append([38, k, old_bps, old_max, b["bps"], b["maxfee"], e_new, cur])
+    ops[pos:pos] = fix
+    t = line.split()
+    head = t[:c["ops_index"]]
+    out = head + [str(len(ops))]
+    for o in ops:
+        out += [str(x) for x in o]
+    return " ".join(out)
 
 
 def gen_close_balance_case(rng):
@@ -508,7 +538,7 @@ def gen_tokenless_case(rng):
     return " ".join(map(str, toks))
 
 # ---------------------------------------------------------------------------------------------
-OPLEN = {0: 2, 1: 5, 2: 5, 3: 4, 4: 5, 7: 3, 10: 2, 16: 2, 17: 6, 18: 3, 19: 3, 30: 2, 31: 3, 32: 3, 33: 3, 34: 4, 35: 5, 36: 2, 37: 6}
+OPLEN = {0: 2, 1: 5, 2: 5, 3: 4, 4: 5, 7: 3, 10: 2, 16: 2, 17: 6, 18: 3, 19: 3, 30: 2, 31: 3, 32: 3, 33: 3, 34: 4, 35: 5, 36: 2, 37: 6, 38: 8}
 
 
 def parse_case(line):
@@ -531,13 +561,14 @@ def parse_case(line):
                       "tier": x[4], "tavil": x[5], "price": x[6], "tokprog": x[7], "bps": x[8], "maxfee": x[9],
                       "orig": x[10], "etag": x[11], "emode": em, "last_update": f[7]})
     n = t[i]
+    ops_index = i
     i += 1
     ops = []
     for _ in range(n):
         k = t[i]
         ops.append(t[i:i + OPLEN[k]])
         i += OPLEN[k]
-    return {"nb": nb, "na": na, "pf": pf, "now": now, "banks": banks, "ops": ops}
+    return {"nb": nb, "na": na, "pf": pf, "now": now, "banks": banks, "ops": ops, "ops_index": ops_index}
 
 
 BANK_F = ["asv", "lsv", "tas", "tls", "ins", "grp", "prog", "last_update", "em_rem", "lend_cnt", "bor_cnt",
